@@ -9,9 +9,17 @@ dropping `tx.close()`, `remove_reader`, `join`, `rx.close()` or the EOF handler 
 Also read off: whether `join` is given a timeout (`process.join(timeout=..)` / `process.join(1.0)` becomes the instruction
 `joinTimeout`, which goes on without having reaped a child that needs longer — `terminates_and_releases` does not re-prove), and
 whether the child is made daemonic (`Process(.., daemon=..)` or `process.daemon = ..`: a daemonic process may not start
-processes of its own, so a callee that does raises instead of returning — `childBeh_table` / `source_shape` do not re-prove)."""
+processes of its own, so a callee that does raises instead of returning — `childBeh_table` / `source_shape` do not re-prove).
+
+Second generated file, `SubprocModule.lean` (never skipped for a change of the protocol statements): everything in the module
+that could carry state from one invocation to the next, or from one event loop to the next — module-level names bound by anything
+but imports / classes / functions / `T = TypeVar(..)`, class attributes, `with` / `async with` statements, acquire / release
+calls and mentions of synchronisation primitives (Semaphore, Lock, …) in any function, `global` / `nonlocal`, stores through
+objects that are not locals, mutable defaults, decorators other than `@wraps(..)`.  `no_state_between_invocations` (Props/C17)
+proves the three lists empty by `decide`: the N-invocation theorems are about invocations that share nothing but the event
+loop's reader table, and a module that keeps such state is outside them."""
 import ast
-from extract import Skip, src, find_func, lean_bool, HEADER
+from extract import Skip, src, find_func, lean_bool, lean_str, HEADER
 
 REL = 'pedantic/decorators/fn_deco_in_subprocess.py'
 
@@ -519,4 +527,250 @@ end PedVerif.Gen.Subproc
 '''
 
 
-FILES = {'Subproc.lean': gen_subproc}
+# ------------------------------------------------------------------------------------------------ module-level state
+
+SYNC_NAMES = {'Semaphore', 'BoundedSemaphore', 'Lock', 'RLock', 'Condition', 'Barrier', 'Queue', 'LifoQueue', 'PriorityQueue',
+              'JoinableQueue', 'SimpleQueue', 'Pool', 'ThreadPoolExecutor', 'ProcessPoolExecutor', 'Manager', 'Value', 'Array',
+              'lru_cache', 'cache', 'cached_property', 'WeakValueDictionary', 'WeakKeyDictionary', 'ContextVar', 'local'}
+SYNC_METHODS = {'acquire', 'release', 'locked', 'notify', 'notify_all', 'wait_for', 'put', 'put_nowait', 'get_nowait', 'task_done'}
+
+
+def _targets(t):
+    """names a binding target binds; anything that is not a plain name is described by its source text"""
+    if isinstance(t, ast.Name):
+        return [t.id]
+    if isinstance(t, (ast.Tuple, ast.List)):
+        return [n for e in t.elts for n in _targets(e)]
+    if isinstance(t, ast.Starred):
+        return _targets(t.value)
+    return [ast.unparse(t)]
+
+
+def _import_names(stmts):
+    out = set()
+    for s in stmts:
+        for a in s.names:
+            out.add((a.asname or a.name).split('.')[0])
+    return out
+
+
+def _is_typevar(s):
+    return (isinstance(s, ast.Assign) and len(s.targets) == 1 and isinstance(s.targets[0], ast.Name) and isinstance(s.value, ast.Call)
+            and (_name(s.value.func) == 'TypeVar' or (isinstance(s.value.func, ast.Attribute) and s.value.func.attr == 'TypeVar'))
+            and len(s.value.args) >= 1 and isinstance(s.value.args[0], ast.Constant) and s.value.args[0].value == s.targets[0].id)
+
+
+def _is_main_guard(s):
+    t = s.test
+    return (isinstance(s, ast.If) and isinstance(t, ast.Compare) and len(t.ops) == 1 and isinstance(t.ops[0], ast.Eq)
+            and _name(t.left) == '__name__' and isinstance(t.comparators[0], ast.Constant) and t.comparators[0].value == '__main__')
+
+
+def _is_static(v):
+    """a value that cannot carry state: constants, tuples of them, typing expressions (names, attributes, subscripts, `A | B` — no calls),
+    `TypeVar(..)`-like declarations, a logger"""
+    if v is None or isinstance(v, (ast.Constant, ast.Name)):
+        return True
+    if isinstance(v, ast.Attribute):
+        return _is_static(v.value)
+    if isinstance(v, ast.UnaryOp):
+        return _is_static(v.operand)
+    if isinstance(v, ast.Tuple):
+        return all(_is_static(e) for e in v.elts)
+    if isinstance(v, ast.Subscript):
+        sl = v.slice
+        return _is_static(v.value) and all(_is_static(e) for e in (sl.elts if isinstance(sl, (ast.Tuple, ast.List)) else [sl]))
+    if isinstance(v, ast.List):                      # only inside a subscript: Callable[[int], str]
+        return all(_is_static(e) for e in v.elts)
+    if isinstance(v, ast.BinOp) and isinstance(v.op, ast.BitOr):
+        return _is_static(v.left) and _is_static(v.right)
+    if isinstance(v, ast.Call):
+        f = v.func.attr if isinstance(v.func, ast.Attribute) else _name(v.func)
+        return f in ('TypeVar', 'ParamSpec', 'NewType', 'getLogger') and all(_is_static(a) for a in v.args) \
+            and all(_is_static(k.value) for k in v.keywords)
+    return False
+
+
+def module_bindings(stmts, prefix=''):
+    """names bound when the module is imported, other than by import / class / def / `T = TypeVar('T')` / the `None` fallbacks of an
+    optional import — and statements that do something else at import time (calls, loops, …)"""
+    out = []
+    for s in stmts:
+        if isinstance(s, (ast.Import, ast.ImportFrom, ast.FunctionDef, ast.AsyncFunctionDef, ast.Pass)):
+            continue
+        if isinstance(s, ast.Expr) and isinstance(s.value, ast.Constant):
+            continue                                                   # docstring
+        if isinstance(s, ast.ClassDef):
+            out += module_bindings(s.body, prefix + s.name + '.')     # class attributes are shared by everything in the interpreter
+            continue
+        if _is_typevar(s):
+            continue
+        if isinstance(s, ast.Try) and s.body and all(isinstance(b, (ast.Import, ast.ImportFrom)) for b in s.body) \
+                and not s.orelse and not s.finalbody:
+            # try: from multiprocess import ..  except ImportError: <the same names> = None
+            names = _import_names(s.body)
+            for h in s.handlers:
+                for b in h.body:
+                    tgt = b.target if isinstance(b, ast.AnnAssign) else (b.targets[0] if isinstance(b, ast.Assign) and len(b.targets) == 1 else None)
+                    if tgt is not None and _name(tgt) in names and isinstance(b.value, ast.Constant) and b.value.value is None:
+                        continue
+                    if isinstance(b, (ast.Import, ast.ImportFrom, ast.Pass)):
+                        continue
+                    out += module_bindings([b], prefix)
+            continue
+        if isinstance(s, ast.If) and _is_main_guard(s) and not prefix:
+            # not executed on import; a binding in there is still a module-level name
+            for b in s.body + s.orelse:
+                if not (isinstance(b, ast.Expr) and isinstance(b.value, ast.Call)):
+                    out += module_bindings([b], prefix)
+            continue
+        if isinstance(s, (ast.Assign, ast.AnnAssign)) and not isinstance(s.value, ast.List) and _is_static(s.value) \
+                and all(isinstance(t, ast.Name) for t in (s.targets if isinstance(s, ast.Assign) else [s.target])):
+            continue                                                   # NAME = <constant / typing expression / TypeVar / logger>
+        if isinstance(s, ast.Assign) and [ast.unparse(t) for t in s.targets] == ['__all__'] and isinstance(s.value, (ast.List, ast.Tuple)) \
+                and all(isinstance(e, ast.Constant) for e in s.value.elts):
+            continue
+        if isinstance(s, ast.Assign):
+            out += [prefix + n for t in s.targets for n in _targets(t)]
+        elif isinstance(s, (ast.AnnAssign, ast.AugAssign)):
+            out += [prefix + n for n in _targets(s.target)]
+        elif isinstance(s, (ast.If, ast.Try, ast.With, ast.For, ast.While)):
+            inner = module_bindings([b for b in ast.iter_child_nodes(s) if isinstance(b, ast.stmt)], prefix)
+            out += inner or [prefix + f'<{type(s).__name__.lower()} statement at import time>']
+        else:
+            out.append(prefix + f'<{ast.unparse(s)[:40]}>')
+    return out
+
+
+def _functions(tree):
+    """every function of the module with its qualified name (nested ones too)"""
+    out = []
+
+    def walk(stmts, prefix):
+        for s in stmts:
+            if isinstance(s, (ast.FunctionDef, ast.AsyncFunctionDef)):
+                out.append((prefix + s.name, s))
+                walk(s.body, prefix + s.name + '.')
+            elif isinstance(s, ast.ClassDef):
+                walk(s.body, prefix + s.name + '.')
+            else:
+                walk([b for b in ast.iter_child_nodes(s) if isinstance(b, ast.stmt)], prefix)
+    walk(tree.body, '')
+    return out
+
+
+def _own_nodes(fn):
+    """nodes of a function body without the bodies of nested functions / classes"""
+    todo = list(fn.body)
+    while todo:
+        n = todo.pop()
+        yield n
+        for c in ast.iter_child_nodes(n):
+            if not isinstance(c, (ast.FunctionDef, ast.AsyncFunctionDef, ast.ClassDef, ast.Lambda)):
+                todo.append(c)
+
+
+def _locals(fn):
+    a = fn.args
+    names = {x.arg for x in a.posonlyargs + a.args + a.kwonlyargs}
+    for v in (a.vararg, a.kwarg):
+        if v is not None:
+            names.add(v.arg)
+    for n in _own_nodes(fn):
+        if isinstance(n, ast.Name) and isinstance(n.ctx, ast.Store):
+            names.add(n.id)
+        elif isinstance(n, (ast.Import, ast.ImportFrom)):
+            names |= _import_names([n])
+        elif isinstance(n, ast.ExceptHandler) and n.name:
+            names.add(n.name)
+    for n in _own_nodes(fn):
+        if isinstance(n, (ast.Global, ast.Nonlocal)):
+            names -= set(n.names)
+    return names
+
+
+def _base_name(n):
+    while isinstance(n, (ast.Attribute, ast.Subscript)):
+        n = n.value
+    return _name(n)
+
+
+def body_guards(tree):
+    """context managers, acquire/release calls and synchronisation primitives in any function of the module"""
+    out = []
+    for q, fn in _functions(tree):
+        loc = _locals(fn)
+        for n in _own_nodes(fn):
+            if isinstance(n, (ast.With, ast.AsyncWith)):
+                # a context manager that is not an object of this activation (`with rx:` is; a module-level or closure object is not)
+                kw = 'async with' if isinstance(n, ast.AsyncWith) else 'with'
+                ext = [i for i in n.items if not (isinstance(i.context_expr, (ast.Name, ast.Attribute)) and _base_name(i.context_expr) in loc)]
+                if ext:
+                    out.append(f'{q}: {kw} ' + ', '.join(ast.unparse(i.context_expr)[:40] for i in ext))
+            elif isinstance(n, ast.Call) and isinstance(n.func, ast.Attribute) and n.func.attr in SYNC_METHODS:
+                out.append(f'{q}: {ast.unparse(n.func)[:40]}()')
+            elif isinstance(n, ast.Name) and n.id in SYNC_NAMES or isinstance(n, ast.Attribute) and n.attr in SYNC_NAMES:
+                out.append(f'{q}: {ast.unparse(n)[:40]}')
+    return sorted(set(out))
+
+
+def shared_stores(tree):
+    """what lets a function keep something beyond its own activation"""
+    out = []
+    for q, fn in _functions(tree):
+        loc = _locals(fn)
+        a = fn.args
+        for d in a.defaults + [k for k in a.kw_defaults if k is not None]:
+            if not isinstance(d, ast.Constant) and not (isinstance(d, ast.Tuple) and not d.elts):
+                out.append(f'{q}: default {ast.unparse(d)[:40]}')
+        for d in fn.decorator_list:
+            if not (isinstance(d, ast.Call) and _name(d.func) == 'wraps' and len(d.args) == 1 and not d.keywords):
+                out.append(f'{q}: @{ast.unparse(d)[:40]}')
+        for n in _own_nodes(fn):
+            if isinstance(n, (ast.Global, ast.Nonlocal)):
+                out.append(f'{q}: {"global" if isinstance(n, ast.Global) else "nonlocal"} ' + ', '.join(n.names))
+            elif isinstance(n, (ast.Attribute, ast.Subscript)) and isinstance(n.ctx, (ast.Store, ast.Del)) and _base_name(n) not in loc:
+                out.append(f'{q}: {ast.unparse(n)[:40]} = ..')
+            elif isinstance(n, ast.Call) and _name(n.func) in ('setattr', 'delattr') and n.args and _base_name(n.args[0]) not in loc:
+                out.append(f'{q}: {ast.unparse(n)[:40]}')
+            elif isinstance(n, ast.Call) and isinstance(n.func, ast.Attribute) \
+                    and n.func.attr in ('append', 'add', 'update', 'extend', 'insert', 'pop', 'popitem', 'remove', 'discard', 'clear', '__setitem__') \
+                    and _base_name(n.func.value) is not None and _base_name(n.func.value) not in loc:
+                out.append(f'{q}: {ast.unparse(n.func)[:40]}()')
+    return sorted(set(out))
+
+
+def lean_str_list(xs):
+    return '[' + ', '.join(lean_str(x) for x in xs) + ']'
+
+
+def gen_module(repo):
+    tree = ast.parse(src(repo, REL))
+    state = module_bindings(tree.body)
+    # synchronisation primitives created at import time are module state whatever they are bound to
+    for s in tree.body:
+        if not isinstance(s, (ast.FunctionDef, ast.AsyncFunctionDef, ast.ClassDef, ast.Import, ast.ImportFrom)):
+            for n in ast.walk(s):
+                if isinstance(n, ast.Call) and (_name(n.func) in SYNC_NAMES or isinstance(n.func, ast.Attribute) and n.func.attr in SYNC_NAMES):
+                    state.append(f'<{ast.unparse(n)[:40]} at import time>')
+    state = sorted(set(state))
+    return HEADER.format(rel=REL) + f'''namespace PedVerif.Gen.SubprocModule
+
+/-- names bound when the module is imported by anything but `import`, `class`, `def`, `NAME = <constant / typing expression /
+    TypeVar(..) / getLogger(..)>` and the `None` fallbacks of the optional `multiprocess` import; class attributes bound otherwise;
+    other statements executed at import time; synchronisation primitives created at import time -/
+def moduleState : List String := {lean_str_list(state)}
+
+/-- `with` / `async with` statements, acquire/release-like calls and mentions of synchronisation primitives (Semaphore, Lock,
+    Queue, …) in any function of the module: something an invocation could have to wait for besides its own child -/
+def bodyGuards : List String := {lean_str_list(body_guards(tree))}
+
+/-- `global` / `nonlocal` declarations, stores through objects that are not locals of the function, non-constant defaults,
+    decorators other than `@wraps(func)`: ways for a function to keep something beyond one activation -/
+def sharedStores : List String := {lean_str_list(shared_stores(tree))}
+
+end PedVerif.Gen.SubprocModule
+'''
+
+
+FILES = {'Subproc.lean': gen_subproc, 'SubprocModule.lean': gen_module}
